@@ -44,6 +44,9 @@ CONSTANTS
     UnderscoreBypass,     \* F2: d['_x'] = v stores into the dict only, the child map of the copy lacks the entry
     ShadowKeyRaises,      \* d['items'] = v raises ValueError (dict.py:28-29): the copy cannot be made
     InsertKeepsMapOrder,  \* F10: list.insert puts the new index LAST in the child map (only used by EditInsert)
+    StateCarriesChildren, \* the protocol of the proposed repair: __getstate__ keeps the child map and the built-in items,
+                          \* __reduce__ hands out NO item iterators, __setstate__ puts both views back without any mutator
+                          \* (FALSE = composed.py as it is: children re-attached through append / __setitem__)
     Protocols,            \* subset of {"pickle", "deepcopy", "copy"}
     MaxMut,               \* mutations after the copy (0 or 1)
     MaxEdits              \* list edits (insert / append) before the copy
@@ -121,8 +124,10 @@ DefaultAttrs(kind) == MkNode(kind, NoVal, <<>>)
 \* cls.__new__(cls) + `_children = {}`: no attribute at all; the record keeps the class only
 Blank(kind, v) == Cell(MkNode(kind, v, <<>>), <<>>, <<>>, FALSE)
 
-\* what __reduce__ hands out as list / dict-items iterator
-Iter(c) == IF Mut("IterChildMap") THEN c.kids ELSE c.py
+\* every child object of a container: the child map's, then those only the built-in view holds
+AllKids(c) == c.kids \o SelectSeq(c.py, LAMBDA e : \A i \in 1..Len(c.kids) : c.kids[i][2] # e[2])
+\* what __reduce__ hands out as list / dict-items iterator (repaired protocol: what the state dict holds, in its order)
+Iter(c) == IF StateCarriesChildren THEN AllKids(c) ELSE IF Mut("IterChildMap") THEN c.kids ELSE c.py
 
 ----------------------------------------------------------------------------
 Init ==
@@ -195,9 +200,11 @@ NKids(f) == Len(Iter(heap[f.src]))
 \* the next child may be prepared: copy._reconstruct prepares and attaches one item at a time (after the state);
 \* pickle saves ALL items of a container between MARK and APPENDS / SETITEMS: every child is complete before the
 \* first one is attached
+\* (repaired protocol: the children are part of the state, pickled / deep-copied before __setstate__ runs)
 MayPrepare(f) == /\ f.i + Len(f.rdy) < NKids(f)
-                 /\ (StateFirst => f.st /\ f.rdy = <<>>)
-MayAttach(f)  == /\ f.rdy # <<>>
+                 /\ (IF StateCarriesChildren THEN ~f.st ELSE (StateFirst => f.st /\ f.rdy = <<>>))
+MayAttach(f)  == /\ ~StateCarriesChildren
+                 /\ f.rdy # <<>>
                  /\ (~StateFirst => f.i + Len(f.rdy) = NKids(f))
 
 StartCopy(p) ==
@@ -236,16 +243,23 @@ ShareChild ==
 Settle(h, stk) ==
     LET f == stk[Len(stk)]
         rest == SubSeq(stk, 1, Len(stk) - 1)
-    IN IF f.st /\ f.i = Len(Iter(h[f.src]))
+    IN IF f.st /\ (StateCarriesChildren \/ f.i = Len(Iter(h[f.src])))
        THEN (IF rest = <<>> THEN rest ELSE [rest EXCEPT ![Len(rest)].rdy = Append(@, f.dst)])
        ELSE stk
 
 \* RestoreState: __setstate__(state) - every attribute (flags of all three levels, priority, metadata,
 \* _func, ref_point, value, source file ...) except the child map
 RestoreState ==
-    /\ phase = "copying" /\ status = "ok" /\ stack # <<>> /\ ~Top.st /\ Top.rdy = <<>>
-    /\ StateFirst \/ Top.i = NKids(Top)
-    /\ LET h2 == [heap EXCEPT ![Top.dst].n = heap[Top.src].n, ![Top.dst].attrs = TRUE]
+    /\ phase = "copying" /\ status = "ok" /\ stack # <<>> /\ ~Top.st
+    /\ IF StateCarriesChildren THEN Len(Top.rdy) = NKids(Top)
+       ELSE Top.rdy = <<>> /\ (StateFirst \/ Top.i = NKids(Top))
+    /\ LET src == heap[Top.src]
+           New(id) == Top.rdy[CHOOSE j \in 1..Len(AllKids(src)) : AllKids(src)[j][2] = id]
+           h1 == [heap EXCEPT ![Top.dst].n = src.n, ![Top.dst].attrs = TRUE]
+           h2 == IF StateCarriesChildren
+                 THEN [h1 EXCEPT ![Top.dst].kids = [i \in 1..Len(src.kids) |-> <<src.kids[i][1], New(src.kids[i][2])>>],
+                                 ![Top.dst].py   = [i \in 1..Len(src.py) |-> <<src.py[i][1], New(src.py[i][2])>>]]
+                 ELSE h1
            s  == Settle(h2, SetTop([Top EXCEPT !.st = TRUE]))
        IN /\ heap' = h2 /\ stack' = s
           /\ phase' = IF s = <<>> THEN "copied" ELSE phase
@@ -359,8 +373,8 @@ Completes == Done => status = "ok"
 InDomain == ViewsAgree(heap, oroot)
 Faithful == (Copied /\ nmut = 0 /\ InDomain) => (CopyT = OrigT /\ PyTreeOf(heap, croot) = PyTreeOf(heap, oroot))
 ContentFaithful == (Copied /\ nmut = 0) => DataOf(PyTreeOf(heap, croot)) = DataOf(PyTreeOf(heap, oroot))
-\* the copy's own views agree
-CopyConsistent == (Copied /\ nmut = 0) => ViewsAgree(heap, croot)
+\* the copy of a consistent tree is consistent (C17's ViewsAgree is not lost by copying)
+CopyConsistent == (Copied /\ nmut = 0 /\ InDomain) => ViewsAgree(heap, croot)
 
 \* the copy shares no node with the original
 Disjoint == (Copied /\ proto # "copy") => Ids(heap, croot) \cap Ids(heap, oroot) = {}
